@@ -383,6 +383,72 @@ func psMutations(c *core.Ctx, rng *core.Rng, id *int) {
 	}
 }
 
+// astral-plane text: UTF-8 scripts (with and without the UTF-8 BOM) containing supplementary-plane characters and BMP characters
+// with the same low 16 bits; every single-byte substitution inside the character and whole-character swaps between planes
+func psAstralMutations(c *core.Ctx, rng *core.Rng, id *int) {
+	chars := []rune{0x1F600, 0x2F600, 0x10F600, 0x10000, 0x10FFFF, 0xF600}
+	pool := []rune{0x1F600, 0x2F600, 0x3F600, 0xFF600, 0x10F600, 0xF600, 0x10000, 0x20000, 0x100000, 0x10FFFF, 0xFFFF, 0x0, 0xFFFD, 0xD7FF, 0x1F601, 0x41}
+	n := 0
+	for _, ch := range chars {
+		for _, bom := range []bool{false, true} {
+			style := 1 + n%3
+			n++
+			if c.Tier != "thorough" && bom && ch != 0x1F600 && ch != 0x10000 {
+				continue
+			}
+			pre := "Write-Host 'a"
+			if bom {
+				pre = "\ufeff" + pre
+			}
+			post := "b'\r\nexit 0\r\n"
+			file := []byte(pre + string(ch) + post)
+			pc := psOne(c, 0, "mut-astral", style, file, [][]byte{nil}, true)
+			if len(pc.Rounds) == 0 || pc.Rounds[0].Out == "" {
+				c.Emit(map[string]interface{}{"kind": "note", "text": fmt.Sprintf("astral sample U+%X could not be signed", ch)})
+				continue
+			}
+			signed, _ := hex.DecodeString(pc.Rounds[0].Out)
+			mc := mutCase{Kind: "psmut", ID: *id, Fmt: "ps", Style: style, Signed: hx(signed), Base: pc.VerFull, Files: map[string]string{}}
+			*id++
+			lo, hi := len(pre), len(pre)+len(string(ch))
+			for off := lo - 1; off <= hi; off++ {
+				for v := 0; v < 256; v++ {
+					if byte(v) == signed[off] {
+						continue
+					}
+					m := append([]byte{}, signed...)
+					m[off] = byte(v)
+					st, _, _ := realVerifyPs(style, m, false)
+					mc.Muts = append(mc.Muts, [3]int{off, v, st})
+				}
+			}
+			for _, o := range append([]rune{ch & 0xFFFF, ch&0xFFFF | 0x10000, ch&0xFFFF | 0x100000}, pool...) {
+				if o == ch || (o >= 0xD800 && o <= 0xDFFF) {
+					continue
+				}
+				m := append(append(append([]byte{}, signed[:lo]...), []byte(string(o))...), signed[hi:]...)
+				name := fmt.Sprintf("char-U+%X-to-U+%X", ch, o)
+				if _, dup := mc.Files[name]; dup {
+					continue
+				}
+				st, _, _ := realVerifyPs(style, m, false)
+				mc.Extra = append(mc.Extra, [2]interface{}{name, st})
+				mc.Files[name] = hx(m)
+			}
+			// two characters exchanged / one dropped
+			m := append(append(append([]byte{}, signed[:lo]...), []byte(string(ch)+string(ch))...), signed[hi:]...)
+			st, _, _ := realVerifyPs(style, m, false)
+			mc.Extra = append(mc.Extra, [2]interface{}{"char-doubled", st})
+			mc.Files["char-doubled"] = hx(m)
+			m = append(append([]byte{}, signed[:lo]...), signed[hi:]...)
+			st, _, _ = realVerifyPs(style, m, false)
+			mc.Extra = append(mc.Extra, [2]interface{}{"char-dropped", st})
+			mc.Files["char-dropped"] = hx(m)
+			c.Emit(mc)
+		}
+	}
+}
+
 // ------------------------------------------------------------------ Debian
 
 type debRound struct {
@@ -794,7 +860,9 @@ type textCase struct {
 }
 
 func runText(c *core.Ctx, rng *core.Rng, id *int) {
-	sets := [][]int{{0x41}, {0x7f, 0x80}, {0x7ff, 0x800}, {0xd7ff, 0xe000}, {0xffff, 0x10000}, {0x10ffff}, {0xfeff, 0x41}, {0x1f600, 0x20ac, 0xe9, 0x24}}
+	sets := [][]int{{0x41}, {0x7f, 0x80}, {0x7ff, 0x800}, {0xd7ff, 0xe000}, {0xffff, 0x10000}, {0x10ffff}, {0xfeff, 0x41}, {0x1f600, 0x20ac, 0xe9, 0x24},
+		{0x1f600}, {0x2f600}, {0x10f600}, {0xf600}, {0x10000}, {0x10ffff}, {0xfeff, 0x1f600, 0x2f600}, {0xfeff, 0x10000, 0x0, 0x41}, {0xffff, 0x10000, 0xffff},
+		{0x41, 0x10ffff, 0xfffd, 0x100000, 0xfffff, 0xdbff + 0x2401}, {0xd7ff, 0x10f600, 0xe000}}
 	for i := 0; i < 40; i++ {
 		var s []int
 		for j := 0; j < 1+rng.Intn(12); j++ {
@@ -833,6 +901,7 @@ func runAll(c *core.Ctx) error {
 	}
 	if want("psmut") {
 		psMutations(c, rng, &id)
+		psAstralMutations(c, rng, &id)
 	}
 	if want("deb") {
 		runDeb(c, rng, &id)
